@@ -38,6 +38,20 @@ class Collect(agg_base.AggregateFn):
     return hash('Collect')
 
 
+class CollectInPlace(Collect):
+  """Collect that updates its state in place, like most shipped metrics do (state.add(...))."""
+
+  def update_state(self, state, *inputs):
+    state.append(inputs[0] if len(inputs) == 1 else tuple(inputs))
+    return state
+
+  def __eq__(self, other):
+    return isinstance(other, CollectInPlace)
+
+  def __hash__(self):
+    return hash('CollectInPlace')
+
+
 class CollectRows(agg_base.AggregateFn):
   """Like Collect but flattens batches: every input is an iterable of rows."""
 
@@ -75,6 +89,11 @@ def inc(x):
 
 def add100(x):
   return x + 100
+
+
+def as_batch100(x):
+  import numpy as np
+  return np.array([x + 100.0])
 
 
 def add(x, y):
